@@ -402,6 +402,9 @@ func runScenario(c *harness.Ctx, s scenario, app [2]tlsk.App, kind string) {
 	if !stdInvolved && (!bytes.Equal(o.C.EKM, o.S.EKM) || len(o.C.EKM) != 32 || o.C.EKMErr != nil || o.S.EKMErr != nil) {
 		c.Violate("views-differ:exported-keying-material:"+cls, fmt.Sprintf("[%s] EKM client %x (%v) server %x (%v)", label, o.C.EKM, o.C.EKMErr, o.S.EKM, o.S.EKMErr), nil, label)
 	}
+	if s.mode != modeStdServer && o.S.SNI != tlsk.ServerName {
+		c.Violate("views-differ:server-name:"+cls, fmt.Sprintf("[%s] the client asked for %q, the server's connection state says %q", label, tlsk.ServerName, o.S.SNI), nil, label)
+	}
 	if !stdInvolved && !bytes.Equal(o.C.TLSUnique, o.S.TLSUnique) {
 		c.Violate("views-differ:tls-unique:"+cls, fmt.Sprintf("[%s] TLSUnique client %x server %x", label, o.C.TLSUnique, o.S.TLSUnique), nil, label)
 	}
@@ -921,6 +924,7 @@ var Prop = &harness.Prop{
 		for _, capacity := range []int{1, 2} {
 			u = append(u, reconnectUnit(0x0303, capacity, rdepth), reconnectUnit(0x0301, capacity, rdepth-1))
 		}
+		u = append(u, bigCertUnit(true), bigCertUnit(false), cloneFieldsUnit())
 		u = append(u, serverChainUnit(true, 0), serverChainUnit(false, 0x0301), serverChainUnit(false, 0x0303))
 		for _, sp := range supplyPaths() {
 			u = append(u, certSupplyUnit(sp))
